@@ -69,7 +69,7 @@ def plan(tier, seed):
     if tier == "quick":
         n, per, maxlen = 16, 300, 25
     else:
-        n, per, maxlen = 64, 1500, 40
+        n, per, maxlen = 64, 1000, 40
     return [{"seed": seed * 1000 + i, "n": per, "maxlen": maxlen} for i in range(n)]
 
 
